@@ -68,7 +68,7 @@ def main():
             json.dump(m, open(rp, "w"), indent=1)
             print(name, m["suite"], {c: r["exit"] for c, r in m["checks"].items() if r["exit"] != 0} or "all silent")
     if "--table-only" not in sys.argv:
-        sh("python3 /verif/tools/extract.py --gen; python3 /verif/tools/rs2lean.py --gen")   # the generated files must reflect the clean tree again
+        sh("python3 /verif/tools/extract.py --gen; python3 /verif/tools/rs2lean.py --gen; python3 /verif/tools/rs2lean_buf.py --gen")   # the generated files must reflect the clean tree again
     s = open("/verif/DESIGN.md").read()
     b, e = "<!-- BENIGN:BEGIN -->", "<!-- BENIGN:END -->"
     if b in s:
